@@ -13,13 +13,14 @@ import copy
 import functools
 import pickle
 
+from . import c19_occ as O
 from . import c19_sets as S
 from . import cells_common as C
 from . import core
 
 PROP = "C19"
 DRIVER = "drv_copy"
-DRIVERS = ["drv_copy", S.DRIVER]
+DRIVERS = ["drv_copy", S.DRIVER, O.DRIVER]
 LEAN_MODULES = ["MesaModel.Props.C19", "MesaModel.Props.C19Sets"]
 THEOREMS = ["Mesa.Copy." + t for t in (
     "C19_cells_see_own_layers", "C19_copy_sees_own_layers", "C19_copy_faithful", "C19_copy_detached",
@@ -252,13 +253,19 @@ def is_sets(sc):
     return sc.lines[0] == S.HEADER
 
 
+def is_occ(sc):
+    return sc.lines[0] == O.HEADER
+
+
 def driver_for(sc):
-    return S.DRIVER if is_sets(sc) else DRIVER
+    return S.DRIVER if is_sets(sc) else O.DRIVER if is_occ(sc) else DRIVER
 
 
 def run_impl(sc):
     if is_sets(sc):
         return S.run_impl(sc)
+    if is_occ(sc):
+        return O.run_impl(sc)
     impl = Impl(sc.lines[0].split())
     obs = ["ok" if impl.o.impl.space is not None else "err Value"]
     for l in sc.lines[1:]:
@@ -306,6 +313,8 @@ def dump_inconsistencies(dump, hand_written_empty=False):
 def oracle(sc, obs):
     if is_sets(sc):
         return S.oracle(sc, obs)
+    if is_occ(sc):
+        return O.oracle(sc, obs)
     bad = []
     # once the program has written the built-in `empty` layer by hand, that layer legitimately differs from emptiness
     hand_empty = any(" layer set empty " in " " + l + " " for l in sc.lines)
@@ -345,6 +354,9 @@ def generate(rng, tier, count):
     for _ in range(count):
         if R.random() < 0.3:
             yield S.generate_one(R, tier)
+            continue
+        if R.random() < 0.28:   # ~20 % of all scenarios
+            yield O.generate_one(R, tier)
             continue
         k = R.random()
         header = C.gen_grid_header(R) if k < 0.7 else None
@@ -430,6 +442,8 @@ def generate(rng, tier, count):
 def nontrivial(sc, obs):
     if is_sets(sc):
         return S.nontrivial(sc, obs)
+    if is_occ(sc):
+        return O.nontrivial(sc, obs)
     i = next((k for k, l in enumerate(sc.lines) if l.startswith("copy ")), None)
     if i is None:
         return False
@@ -442,6 +456,9 @@ def nontrivial(sc, obs):
 def tags(sc, obs):
     if is_sets(sc):
         yield from S.tags(sc, obs)
+        return
+    if is_occ(sc):
+        yield from O.tags(sc, obs)
         return
     w = sc.lines[0].split()
     yield "space:" + (w[1] + ":" + w[2] if w[1] == "grid" else w[1])
@@ -524,8 +541,8 @@ def extra(ctx):
                       and sorted(c.coordinate for c in g2[tuple(0 for _ in dims)].neighborhood)
                       == sorted(c.coordinate for c in g[tuple(0 for _ in dims)].neighborhood))
                 err = None if ok else "the copy differs from the original"
-            except RecursionError:
-                err = "RecursionError"
+            except Exception as e:  # noqa: BLE001  RecursionError is S23; any other failure to copy is a violation as well
+                err = type(e).__name__
             if err:
                 ctx.violation("large-grid", {"kind": "impl-counterexample", "oracle_clause": [f"copy-unusable: {how} of a {dims} {klass.__name__} whose cells' neighborhoods were used: {err}"],
                                               "dims": dims, "how": how})
